@@ -36,12 +36,12 @@ def run_one(binary, wd, gen_args):
 def analyse(ops, impl, own, model, spec, ledger):
     res = {'seqs': 0, 'lines': len(ops), 'problems': [], 'known': collections.Counter(), 'tainted': 0, 'hist': collections.Counter(),
            'views': 0, 'events': 0, 'finals': set(), 'samples': [], 'ledger_compared': 0}
-    cur = None; start = 0; stop = False
+    cur = None; start = 0; stop = False; nomodel = False
     n = min(len(ops), len(impl), len(own), len(model), len(spec))
     for i in range(n):
         o = ops[i]
         if o.startswith('seq '):
-            cur = [o]; start = i; stop = False; res['seqs'] += 1
+            cur = [o]; start = i; stop = False; nomodel = False; res['seqs'] += 1
             continue
         if cur is None: continue
         cur.append(o)
@@ -75,18 +75,20 @@ def analyse(ops, impl, own, model, spec, ledger):
                     res['known_on_model'] = res.get('known_on_model', 0) + (1 if a else 0)
             continue
         # content of what a reader returns / of the readable bytes must equal the model's (poisoned frees make a premature free visible)
+        # (after a disagreement with a model the implementation-side oracle above keeps judging the rest of the sequence)
+        if nomodel: continue
         if impl[i] != model[i]:
             res['problems'].append((list(cur), i - start, 'content-not-intact', 'op=%s | impl=%s | model=%s' % (o, impl[i][:300], model[i][:300])))
-            stop = True; continue
+            nomodel = True; continue
         if ledger is not None and i < len(ledger) and not impl[i].startswith('panic'):
             res['ledger_compared'] += 1
             led, _, led_dump = ledger[i].partition('%%')
             if led.split('!!')[0].strip() != ev.strip() or '!!' in led:
                 res['problems'].append((list(cur), i - start, 'ledger-differs', 'op=%s | impl-events=%s | model-events=%s' % (o, ev.strip(), led[:300])))
-                stop = True; continue
+                nomodel = True; continue
             if led_dump.strip() != node_dump.strip():
                 res['problems'].append((list(cur), i - start, 'ledger-differs', 'op=%s | impl-nodes=%s | model-nodes=%s' % (o, node_dump.strip()[:300], led_dump.strip()[:300])))
-                stop = True; continue
+                nomodel = True; continue
             res['ledger_nodes'] = res.get('ledger_nodes', 0) + led_dump.count('/') // 2
         res['finals'].add(ev.strip() + '|' + impl[i].split(' ## ')[-1][:200])
     for s in lbtool.split_seqs(ops)[:2]:
